@@ -25,6 +25,12 @@
   `customwidgets_only_instantiated` (`extends` is the root type written in the component's own file; ancestors that are
   not instantiated are not listed).  The model's Qt summary carries `isLayout` / `isAction` next to `isWidget`.
 
+  Added for the forms of an import statement (`import M 6.2`, `import "../b" as B`): `versioned_import_is_the_import` /
+  `versioned_import_only_warns` (a version changes neither the component a file defines nor the translation of the
+  document, it adds a warning that does not reject), `aliased_import_contributes_nothing` /
+  `aliased_import_rejects_document` (an aliased statement is skipped: no module id, no directory discovered through it;
+  the document that carries it is rejected).  `Output.accepted` = built and no ERROR diagnostic.
+
   The command-line loop of `generate_ui` is modelled as `cliRun`; `cli_outputs_order_independent` proves the
   clause for it.  (Finding F15 — the loop stopped at the first rejected source — was repaired in /repo
   73d3cab; the pre-repair loop and its witness are kept as `cliRunFailFast` / `f15_fail_fast_witness`.)
@@ -205,7 +211,7 @@ theorem outputs_independent_of_argument_order (env : Env) (t : Tree) (srcs srcs'
       document's imports, to a component whose own root type resolves in the COMPONENT's imports; the entry
       carries the component's name, the name of that root class as `extends` and the lower-cased
       `<name>.h` as header;
-    * if the document is accepted (no diagnostics) every instantiated component is listed. -/
+    * if the document is accepted (no error diagnostics) every instantiated component is listed. -/
 theorem customwidgets_exact (env : Env) (t : Tree) (look : Path → Option Module) (base : Path) (f : File)
     (o : Output) (h : translate env t look base f = some o) (hb : o.built = true) :
     let sp := (docSpace env t look base f.imports).1
@@ -242,8 +248,7 @@ theorem customwidgets_exact (env : Env) (t : Tree) (look : Path → Option Modul
   refine ⟨?_, hmem, ?_⟩
   · rw [hc]; exact customWidgets_nodup (nodesOf_name_inj hroot)
   · intro hacc ob d c hob hty
-    have hd : o.diags = [] := by
-      simp only [Output.accepted, Bool.and_eq_true, List.isEmpty_iff] at hacc; exact hacc.2
+    have hd : ∀ d ∈ o.diags, d.isWarning = true := (accepted_iff.1 hacc).2
     obtain ⟨hrootDiag, hkidDiag⟩ := hdiag hd
     have hn := hnode ob _ hob hty
     -- the node's base list passes the class test (root: a widget; child: a widget, a layout or an action)
@@ -451,6 +456,80 @@ theorem customwidgets_only_instantiated (env : Env) (t : Tree) (look : Path → 
   · rw [hweq]; exact hname.symm
   · rw [hweq, superClass_name hs]
 
+/-! ### forms of an import statement: version, alias, repetition -/
+
+/-- the same file with every version removed from its import statements -/
+def eraseVersions (f : File) : File := { f with stmts := f.stmts.map fun s => { s with version := none } }
+
+/-- **A versioned import is the import.**  A version on an import statement (`import qmluic.QtWidgets 6.2`,
+    `import "../b" 1.0`) changes neither the imports that count, nor — therefore — the component the file defines (its
+    super class, its import list: the directories discovered through it and the names it can resolve). -/
+theorem versioned_import_is_the_import (t : Tree) (base : Path) (f : File) :
+    (eraseVersions f).imports = f.imports ∧ componentOf t base (eraseVersions f) = componentOf t base f := by
+  have hi : (eraseVersions f).imports = f.imports := by
+    simp only [File.imports, eraseVersions, List.filter_map, List.map_map]
+    congr 1
+  refine ⟨hi, ?_⟩
+  unfold componentOf
+  rw [hi]; rfl
+
+/-- … and for the document being translated it only adds the warning "import version is ignored": with the versions
+    removed the translation is the same form, the same widgets, the same `<customwidgets>`, the same verdict, and the
+    same diagnostics but for that warning. -/
+theorem versioned_import_only_warns (env : Env) (t : Tree) (look : Path → Option Module) (base : Path) (f : File)
+    (o : Output) (h : translate env t look base f = some o) :
+    ∃ o', translate env t look base (eraseVersions f) = some o' ∧ o'.built = o.built ∧ o'.widgets = o.widgets ∧
+      o'.customs = o.customs ∧ o'.accepted = o.accepted ∧
+      ∃ R, o.diags = stmtDiags f.stmts ++ R ∧
+        o'.diags = (stmtDiags f.stmts).filter (· ≠ .importVersionIgnored) ++ R := by
+  obtain ⟨R, hd, h'⟩ := translate_stmts (f' := eraseVersions f) (versioned_import_is_the_import t base f).1 rfl rfl h
+  refine ⟨_, h', rfl, rfl, rfl, ?_, R, hd, ?_⟩
+  · have hall : ∀ l : List Diag, (l.filter (· ≠ .importVersionIgnored)).all Diag.isWarning = l.all Diag.isWarning := by
+      intro l
+      induction l with
+      | nil => rfl
+      | cons d rest ih =>
+        rw [List.filter_cons]
+        split
+        · rw [List.all_cons, List.all_cons, ih]
+        · rename_i hdv
+          have : d = .importVersionIgnored := by simpa using hdv
+          subst this
+          rw [List.all_cons, ih]; rfl
+    simp only [Output.accepted, hd, List.all_append, eraseVersions, stmtDiags_eraseVersions, hall]
+  · simp only [eraseVersions, stmtDiags_eraseVersions]
+
+/-- **An aliased import contributes nothing**: with or without the statement the imports that count are the same, so
+    the component the file defines is the same one (in particular the directory of an aliased string import is not
+    discovered through it, and a root type only that import would provide does not resolve) … -/
+theorem aliased_import_contributes_nothing (t : Tree) (base : Path) (f : File) (pre post : List ImportStmt)
+    (s : ImportStmt) (ha : s.alias.isSome = true) (hf : f.stmts = pre ++ s :: post) :
+    f.imports = ({ f with stmts := pre ++ post } : File).imports ∧
+      componentOf t base f = componentOf t base { f with stmts := pre ++ post } := by
+  have hi : f.imports = ({ f with stmts := pre ++ post } : File).imports := by
+    have hn : s.alias.isNone = false := by
+      cases hs : s.alias with
+      | none => simp [hs] at ha
+      | some a => rfl
+    simp only [File.imports, hf, List.filter_append, List.filter_cons, hn, Bool.false_eq_true, if_false]
+  refine ⟨hi, ?_⟩
+  unfold componentOf
+  rw [hi]
+
+/-- … and a document that carries one is rejected ("aliased import is not supported" is an error). -/
+theorem aliased_import_rejects_document (env : Env) (t : Tree) (look : Path → Option Module) (base : Path) (f : File)
+    (o : Output) (h : translate env t look base f = some o) (s : ImportStmt) (hs : s ∈ f.stmts)
+    (ha : s.alias.isSome = true) : Diag.aliasedImport ∈ o.diags ∧ o.accepted = false := by
+  obtain ⟨R, hd, _⟩ := translate_stmts (f' := f) rfl rfl rfl h
+  have hm : Diag.aliasedImport ∈ o.diags := by
+    rw [hd]; exact List.mem_append.2 (.inl (mem_stmtDiags_aliased hs ha))
+  refine ⟨hm, ?_⟩
+  cases hacc : o.accepted with
+  | false => rfl
+  | true =>
+    have := (accepted_iff.1 hacc).2 _ hm
+    simp [Diag.isWarning] at this
+
 /-! ### the command line
 
   `generate_ui` translates every source, remembers whether one was rejected, and fails at the end (only an
@@ -563,23 +642,23 @@ private def qtEnv : Env :=
   { qt := [{ name := "QWidget", isWidget := true, props := ["windowTitle"] },
            { name := "QDialog", isWidget := true, props := ["windowTitle", "sizeGripEnabled"] }] }
 
-private def qtw : Import := .named "qmluic.QtWidgets"
+private def qtw : ImportStmt := .named "qmluic.QtWidgets"
 
 /-- `a` and `b` import each other; `a/A : B`, `b/B : A` inherit from each other; `a/S : S` from itself;
     `b/Form : QDialog`; `a/Main` instantiates `Form` twice, `A`, and `S`. -/
 private def tree : Tree :=
   [ { path := [], files := [] },
     { path := ["a"], files :=
-        [ { stem := "A", imports := [qtw, .dir ["..", "b"]], root := { typeName := "B" } },
-          { stem := "S", imports := [qtw], root := { typeName := "S" } },
-          { stem := "Main", imports := [qtw, .dir ["..", "b"]], root := { typeName := "QWidget" },
+        [ { stem := "A", stmts := [qtw, .dir ["..", "b"]], root := { typeName := "B" } },
+          { stem := "S", stmts := [qtw], root := { typeName := "S" } },
+          { stem := "Main", stmts := [qtw, .dir ["..", "b"]], root := { typeName := "QWidget" },
             children := [{ typeName := "Form", prop := some "sizeGripEnabled" }, { typeName := "A" },
                          { typeName := "Form" }, { typeName := "S" }] },
-          { stem := "Ok", imports := [qtw, .dir ["..", "b", "."]], root := { typeName := "Form", prop := some "windowTitle" },
+          { stem := "Ok", stmts := [qtw, .dir ["..", "b", "."]], root := { typeName := "Form", prop := some "windowTitle" },
             children := [{ typeName := "Form" }, { typeName := "QDialog" }] } ] },
     { path := ["b"], files :=
-        [ { stem := "B", imports := [qtw, .dir ["..", "a"]], root := { typeName := "A" } },
-          { stem := "Form", imports := [qtw, .dir ["missing", "..", "a"]], root := { typeName := "QDialog" } } ] } ]
+        [ { stem := "B", stmts := [qtw, .dir ["..", "a"]], root := { typeName := "A" } },
+          { stem := "Form", stmts := [qtw, .dir ["missing", "..", "a"]], root := { typeName := "QDialog" } } ] } ]
 
 private def dirsOf (r : Option PopResult) : Option (List Path) :=
   match r with
@@ -644,27 +723,27 @@ private def chainEnv : Env :=
 private def chainTree : Tree :=
   [ { path := [], files := [] },
     { path := ["d"], files :=
-        [ { stem := "Base", imports := [qtw], root := { typeName := "QPushButton" } },
-          { stem := "Fancy", imports := [qtw], root := { typeName := "Base", prop := some "flat" } },
-          { stem := "Main", imports := [qtw], root := { typeName := "QDialog" },
+        [ { stem := "Base", stmts := [qtw], root := { typeName := "QPushButton" } },
+          { stem := "Fancy", stmts := [qtw], root := { typeName := "Base", prop := some "flat" } },
+          { stem := "Main", stmts := [qtw], root := { typeName := "QDialog" },
             children := [{ typeName := "Fancy", prop := some "text" }, { typeName := "Fancy", prop := some "title" }] },
-          { stem := "Top", imports := [qtw, .dir ["..", "e"]], root := { typeName := "Mid" } },
-          { stem := "UseTop", imports := [qtw], root := { typeName := "Top", prop := some "windowTitle" },
+          { stem := "Top", stmts := [qtw, .dir ["..", "e"]], root := { typeName := "Mid" } },
+          { stem := "UseTop", stmts := [qtw], root := { typeName := "Top", prop := some "windowTitle" },
             children := [{ typeName := "Top", prop := some "flat" }, { typeName := "Mid" }] },
-          { stem := "Lay", imports := [qtw], root := { typeName := "QVBoxLayout" } },
-          { stem := "Lay2", imports := [qtw], root := { typeName := "Lay" } },
-          { stem := "Act", imports := [qtw], root := { typeName := "QAction" } },
-          { stem := "Act2", imports := [qtw], root := { typeName := "Act" } },
-          { stem := "UseLA", imports := [qtw], root := { typeName := "QWidget" },
+          { stem := "Lay", stmts := [qtw], root := { typeName := "QVBoxLayout" } },
+          { stem := "Lay2", stmts := [qtw], root := { typeName := "Lay" } },
+          { stem := "Act", stmts := [qtw], root := { typeName := "QAction" } },
+          { stem := "Act2", stmts := [qtw], root := { typeName := "Act" } },
+          { stem := "UseLA", stmts := [qtw], root := { typeName := "QWidget" },
             children := [{ typeName := "Lay2", prop := some "spacing" }, { typeName := "Act2", prop := some "text" },
                          { typeName := "Act2", prop := some "windowTitle" }] },
-          { stem := "C", imports := [qtw], root := { typeName := "A" } },
-          { stem := "A", imports := [qtw], root := { typeName := "B" } },
-          { stem := "B", imports := [qtw], root := { typeName := "A" } },
-          { stem := "UseC", imports := [qtw], root := { typeName := "QWidget" },
+          { stem := "C", stmts := [qtw], root := { typeName := "A" } },
+          { stem := "A", stmts := [qtw], root := { typeName := "B" } },
+          { stem := "B", stmts := [qtw], root := { typeName := "A" } },
+          { stem := "UseC", stmts := [qtw], root := { typeName := "QWidget" },
             children := [{ typeName := "C", prop := some "text" }] } ] },
-    { path := ["e"], files := [ { stem := "Mid", imports := [qtw, .dir ["..", "f"]], root := { typeName := "Low" } } ] },
-    { path := ["f"], files := [ { stem := "Low", imports := [qtw], root := { typeName := "QPushButton" } } ] } ]
+    { path := ["e"], files := [ { stem := "Mid", stmts := [qtw, .dir ["..", "f"]], root := { typeName := "Low" } } ] },
+    { path := ["f"], files := [ { stem := "Low", stmts := [qtw], root := { typeName := "QPushButton" } } ] } ]
 
 private def chainOut (stem : String) : Option Output :=
   match findDir chainTree ["d"] with
@@ -701,6 +780,52 @@ example : (chainOut "Act2").map (·.diags) = some [.notQWidget "Act"] := by deci
 -- a chain into a cycle: the walk ends, the instance is no widget and has no properties
 example : (chainOut "UseC").map (·.diags) = some [.unknownProperty "C" "text", .notActionLayoutWidget "C"] := by decide +kernel
 example : (chainOut "C").map (·.diags) = some [.notQWidget "A"] := by decide +kernel
+
+/-! forms of import statements: `Panel` reaches QFrame through a VERSIONED import of the Qt module only (the layout of
+   seeded change C18/5); `Far` reaches `Low` through a versioned string import; `Lost` imports the Qt module under an
+   alias only; `Twice` imports everything twice, the own directory explicitly, the Qt module last -/
+
+private def impTree : Tree :=
+  [ { path := [], files := [] },
+    { path := ["d"], files :=
+        [ { stem := "Panel", stmts := [{ what := .named "qmluic.QtWidgets", version := some "6.2" }],
+            root := { typeName := "QPushButton" } },
+          { stem := "Far", stmts := [qtw, { what := .dir ["..", "f"], version := some "1.0" }], root := { typeName := "Low" } },
+          { stem := "Lost", stmts := [{ what := .named "qmluic.QtWidgets", alias := some "W" }], root := { typeName := "QPushButton" } },
+          { stem := "Twice", stmts := [.dir ["."], .dir ["..", "f"], qtw, .dir [".", "..", "f", ""], qtw],
+            root := { typeName := "Low", prop := some "flat" } },
+          { stem := "Main", stmts := [qtw], root := { typeName := "QDialog" },
+            children := [{ typeName := "Panel", prop := some "windowTitle" }, { typeName := "Far", prop := some "text" },
+                         { typeName := "Twice" }] },
+          { stem := "UseLost", stmts := [qtw], root := { typeName := "QDialog" }, children := [{ typeName := "Lost", prop := some "text" }] },
+          { stem := "SrcV", stmts := [{ what := .named "qmluic.QtWidgets", version := some "5.15" }, { what := .dir ["..", "f"], version := some "2" }],
+            root := { typeName := "QDialog" }, children := [{ typeName := "Low", prop := some "text" }] },
+          { stem := "SrcA", stmts := [qtw, { what := .dir ["..", "g"], alias := some "G" }], root := { typeName := "QDialog" } } ] },
+    { path := ["f"], files := [ { stem := "Low", stmts := [qtw], root := { typeName := "QPushButton" } } ] },
+    { path := ["g"], files := [ { stem := "InG", stmts := [qtw], root := { typeName := "QPushButton" } } ] } ]
+
+private def impOut (stem : String) : Option Output :=
+  match findDir impTree ["d"] with
+  | some d => (d.files.find? (·.stem = stem)).bind (translate chainEnv impTree (lookOf (populate impTree [["d"]])) ["d"])
+  | none => none
+
+-- `g` is imported under an alias only: it is not discovered
+example : dirsOf (populate impTree [["d"]]) = some [["d"], ["f"]] := by decide +kernel
+example : impOut "Main" = some
+    { built := true, diags := [],
+      widgets := [{ cls := "QDialog", props := [] }, { cls := "Panel", props := ["windowTitle"] }, { cls := "Far", props := ["text"] },
+                  { cls := "Twice", props := [] }],
+      customs := [{ cls := "Panel", ext := "QPushButton", header := "panel.h" }, { cls := "Far", ext := "Low", header := "far.h" },
+                  { cls := "Twice", ext := "Low", header := "twice.h" }] } := by decide +kernel
+example : (impOut "UseLost").map (·.diags) = some
+    [.propertyResolutionFailed (.invalidTypeRef "QPushButton"), .notActionLayoutWidget "Lost"] := by decide +kernel
+-- a source with versioned imports is accepted with two warnings; one with an aliased import is rejected
+example : (impOut "SrcV").map (fun o => (o.accepted, o.diags, o.widgets.map (·.props))) = some
+    (true, [.importVersionIgnored, .importVersionIgnored], [[], ["text"]]) := by decide +kernel
+example : (impOut "SrcA").map (fun o => (o.accepted, o.diags)) = some (false, [.aliasedImport]) := by decide +kernel
+example : (impOut "Lost").map (fun o => (o.accepted, o.diags)) = some (false, [.aliasedImport, .unknownObjectType "QPushButton"]) := by
+  decide +kernel
+example : (impOut "Twice").map (fun o => (o.accepted, o.widgets)) = some (true, [{ cls := "Low", props := ["flat"] }]) := by decide +kernel
 
 -- the command line: a rejected source between accepted ones; an I/O error ends the run
 example : cliRun [("A", .accepted), ("Bad", .rejected), ("B", .accepted)] = (["A", "B"], .diagnosticGenerated) := by decide
